@@ -44,6 +44,19 @@ CLAIMED = {
          "<= 8 code point atoms. Cross-table ties between equally ordered candidates are accepted either way.",
     technique="TLA+ spec of IFT selection/extension checked by TLC (safety + liveness); TLC-enumerated cases replayed on the client; trace validation of real extension loops",
     design="4/C19"),
+ "C18": dict(
+    category="model_checking",
+    text="IFTApply.tla states the effect of table keyed and glyph keyed patch application (first patch wins per "
+         "glyph, exact applied bits, frame conditions, every precondition failure and decoder fault is an error "
+         "that changes nothing); TLC explores every order, grouping and fault position over a patch catalogue and "
+         "checks atomicity, exact bits and confluence; every edge of that graph is replayed on the real patcher "
+         "with byte-wise synthesised fonts/patches and a deterministic fault-injecting decoder, both through the "
+         "low-level apply_* API in the model's order and through PatchGroup with the caller's status map.",
+    note="Trusted: TLC, the harness's font/patch synthesiser and its hand-written projection (loca/glyf/gvar "
+         "parsing). glyf/loca + gvar with short offsets, 4 glyphs, blobs <= 4 bytes, groups <= 3 patches; CFF and "
+         "offset widening are not covered yet.",
+    technique="TLA+ patch-application state machine checked by TLC (invariants + action properties); state-graph replay with fault injection",
+    design="4/C18"),
 }
 
 NOT_APPLICABLE = {
